@@ -80,4 +80,65 @@ theorem connEnd_delivered (s : CS Msg) : (connEnd s).delivered = s.delivered := 
 theorem connEnd_closed (s : CS Msg) (h : s.st = .alive) : (connEnd s).st = .closed := by
   unfold connEnd; rw [h]
 
+/-! ### a replaced table entry -/
+
+theorem be32_embed (pre e post : Bytes) (i : Nat) (h : i + 4 ≤ e.length) :
+    be32 (pre ++ e ++ post) (pre.length + i) = be32 e i := by
+  unfold be32
+  have a0 := byteAt_append_left e post i (by omega)
+  have a1 := byteAt_append_left e post (i+1) (by omega)
+  have a2 := byteAt_append_left e post (i+2) (by omega)
+  have a3 := byteAt_append_left e post (i+3) (by omega)
+  rw [List.append_assoc, Nat.add_assoc, Nat.add_assoc, Nat.add_assoc,
+    byteAt_append_right, byteAt_append_right, byteAt_append_right, byteAt_append_right, a0, a1, a2, a3]
+
+/-- a message of a type whose entry was not replaced is decoded as before -/
+theorem replaceEntry_wf_other (U V : Unpack Msg) (ty0 : Nat) (e : Bytes) (m : Msg) (h : WF U e m) (ht : byteAt e 1 ≠ ty0) :
+    WF (replaceEntry U ty0 V) e m :=
+  { toHdr := h.toHdr, dec := fun pre post => by unfold replaceEntry; rw [if_neg ht]; exact h.dec pre post }
+
+/-- a message of the replaced type is decoded by the new entry -/
+theorem replaceEntry_wf_same (U V : Unpack Msg) (ty0 : Nat) (e : Bytes) (m : Msg) (h : WF V e m) (ht : byteAt e 1 = ty0) :
+    WF (replaceEntry U ty0 V) e m :=
+  { toHdr := h.toHdr, dec := fun pre post => by unfold replaceEntry; rw [if_pos ht]; exact h.dec pre post }
+
+/-- another vendor's message of any legal length (12 bytes and up) goes through the Nicira entry unchanged, whatever
+    follows it in the buffer (nothing, too) -/
+theorem nxVendor_wf_foreign (old : Unpack Msg) (N : Nat → Option (Unpack Msg)) (e : Bytes) (m : Msg) (h : WF old e m)
+    (h12 : 12 ≤ e.length) (hv : be32 e 8 ≠ nxVendorId) : WF (nxVendor old N) e m :=
+  { toHdr := h.toHdr, dec := fun pre post => by
+      unfold nxVendor
+      have hl : ¬ (pre ++ e ++ post).length < pre.length + 12 := by simp only [List.length_append]; omega
+      rw [if_neg hl, be32_embed pre e post 8 (by omega), if_pos hv]
+      exact h.dec pre post }
+
+/-- a Nicira message (16 bytes and up) is decoded by the decoder of its subtype -/
+theorem nxVendor_wf_nicira (old : Unpack Msg) (N : Nat → Option (Unpack Msg)) (e : Bytes) (m : Msg)
+    (h16 : 16 ≤ e.length) (hv : be32 e 8 = nxVendorId) (h : WF ((N (be32 e 12)).getD old) e m) : WF (nxVendor old N) e m :=
+  { toHdr := h.toHdr, dec := fun pre post => by
+      unfold nxVendor
+      have hl : ¬ (pre ++ e ++ post).length < pre.length + 12 := by simp only [List.length_append]; omega
+      have hl2 : ¬ (pre ++ e ++ post).length < pre.length + 16 := by simp only [List.length_append]; omega
+      rw [if_neg hl, be32_embed pre e post 8 (by omega), if_neg (by simpa using hv), if_neg hl2,
+        be32_embed pre e post 12 (by omega)]
+      have := h.dec pre post
+      cases hN : N (be32 e 12) with
+      | none => rw [hN] at this; simpa using this
+      | some d => rw [hN] at this; simpa using this }
+
+/-- well-formed for a controller whose OFPT_VENDOR (4) entry is the Nicira one: any message of another type; another
+    vendor's message of 12 bytes and up; a Nicira message of 16 bytes and up that the decoder of its subtype (the old
+    entry when the subtype has none) consumes exactly -/
+def NxWF (U : Unpack Msg) (N : Nat → Option (Unpack Msg)) (e : Bytes) (m : Msg) : Prop :=
+  (byteAt e 1 ≠ 4 ∧ WF U e m) ∨
+  (byteAt e 1 = 4 ∧ 12 ≤ e.length ∧ be32 e 8 ≠ nxVendorId ∧ WF U e m) ∨
+  (byteAt e 1 = 4 ∧ 16 ≤ e.length ∧ be32 e 8 = nxVendorId ∧ WF ((N (be32 e 12)).getD U) e m)
+
+theorem NxWF.wf {U : Unpack Msg} {N : Nat → Option (Unpack Msg)} {e : Bytes} {m : Msg} (h : NxWF U N e m) :
+    WF (replaceEntry U 4 (nxVendor U N)) e m := by
+  rcases h with ⟨h1, h2⟩ | ⟨h1, h2, h3, h4⟩ | ⟨h1, h2, h3, h4⟩
+  · exact replaceEntry_wf_other U _ 4 e m h2 h1
+  · exact replaceEntry_wf_same U _ 4 e m (nxVendor_wf_foreign U N e m h4 h2 h3) h1
+  · exact replaceEntry_wf_same U _ 4 e m (nxVendor_wf_nicira U N e m h2 h3 h4) h1
+
 end Pox.Framing
